@@ -46,7 +46,7 @@ var c18Contents = map[string]string{
 	"HelloLilith.txt": "Hello, Lilith\nHello, \"World\" 42\nHello, 50%off%d%s 100%\n",
 	"numbers.txt":     "7 and 1234 Hello, Ada\\n\tx 9%\n",
 	"100%d.txt":       "Hello, percent%name 3\n",
-	"other.txt":       "nothing to see <here>\n",
+	"other.txt":       "nothing to see <here>\nHello, caf\u00e9 na\u00efve \u20ac 7\n",
 	"keep.dat":        "bystander 99 Hello, Nobody",
 }
 
